@@ -313,7 +313,8 @@ impl<'a> Parser<'a> {
             } else {
                 None
             };
-            if let Some(group) = group {
+            // protect BitSet against unreasonably large value
+            if let Some(group) = group.filter(|&group| group < self.re.len() / 2) {
                 self.backrefs.insert(group);
                 return Ok((ix + skip, create_expr(group)));
             }
